@@ -86,7 +86,7 @@ PROPS["C09"] = dict(
                 "moves (lf, bs, print_char, print_value).",
 )
 PROPS["C03"] = dict(
-    units=["term_core", "ansi_cmds", "emu_avatar", "sixel", "dcs_macro", "macro_rec", "fonts"],
+    units=["term_core", "ansi_cmds", "emu_avatar", "sixel", "dcs_macro", "macro_rec", "fonts", "icy_load"],
     trusted_base=TERM_TRUST + ["String / &str byte lengths are uninterpreted but consistent (O1 stubs str_len / string_len in unit dcs_macro)"],
     unverified_remainder=TERM_REMAINDER + ["macro recursion: unit macro_rec proves that invoke_macro_by_id dispatches characters only at nesting depth <= 16, restores the depth and never raises the expansion budget; that the dispatcher (print_char, not under contract as a whole) leaves both fields alone is ASSUMED - no other code writes them",
                                            "the body of parse_hex_macro_sequence around push_repeated (string iteration), base64 font payloads"],
@@ -112,9 +112,9 @@ PROPS["C11"] = dict(
                 "lemma_cut_exact composes writer and reader: what write_sauce_info appended is exactly what is cut.",
 )
 PROPS["C02"] = dict(
-    units=["sauce", "xbin_load", "fonts", "bin_load", "idf_load", "tnd_load", "tdf_load"],
+    units=["sauce", "xbin_load", "fonts", "bin_load", "idf_load", "tnd_load", "tdf_load", "icy_load"],
     trusted_base=LOADER_TRUST,
-    unverified_remainder=["IcyDraw load_buffer (PNG decoder callbacks, zTXt, base64)", "Palette::load_palette (regex)",
+    unverified_remainder=["IcyDraw (unit icy_load): read_utf8_encoded_string and the two layer-chunk blocks of load_buffer (first chunk: title, fixed header, picture or first rows of cells; continuation chunk: further rows / picture bytes) are sliced out of the function and proved total on every payload up to 1 GiB, with the declared layer size capped at 65535 x 65535 before rows are allocated; NOT decided: the chunk dispatch itself (PNG decoder callbacks, zTXt, base64, the regex on the chunk name, `get_mut(layer_num)`, the ICED / PALETTE / SAUCE / FONT arms - FONT calls BitFont::from_bytes, proved in unit fonts), Buffer::from_bytes on a path without extension (`extension().unwrap()`) and Palette::load_palette(Ase) (`todo!()`), both seen by a sub-agent on the clean tree and outside every contract here", "Palette::load_palette (regex)",
                           "text formats load through parse_with_parser -> an emulation on a non-terminal buffer (C01's unit covers terminal buffers)"],
     explanation="Each loader function under contract is total: no precondition on the data, and every slice, index, subtraction, "
                 "unwrap and assert obligation is discharged from the length tests in the code.",
